@@ -13,9 +13,11 @@ import (
 	"github.com/ucan-wg/go-ucan/pkg/args"
 	"github.com/ucan-wg/go-ucan/pkg/command"
 	"github.com/ucan-wg/go-ucan/pkg/policy"
+	"github.com/ucan-wg/go-ucan/pkg/policy/literal"
 	"github.com/ucan-wg/go-ucan/token/delegation"
 	"github.com/ucan-wg/go-ucan/token/invocation"
 
+	"verifharness/engine"
 	"verifharness/fixtures"
 )
 
@@ -130,3 +132,214 @@ func bothVerdicts(inv *invocation.Token, ld delegation.Loader) (error, error) {
 }
 
 func commandOf(s string) command.Command { return command.Command(s) }
+
+// Principal layouts of an n-link chain (link i: issuer = holder i+1, audience = holder i; holder n is
+// the subject p0, holder 0 the invoker).
+//
+//	layout 0: straight - holders cycle through the three principals.
+//	layout 1 (n >= 2): the subject re-delegates to itself on top: the root link is p0 -> p0 and the link
+//	          below it is issued by the subject too (a subject-issued link before the last position).
+//	layout 2 (n >= 3): the authority passes through the subject in the middle of the chain:
+//	          root p0 -> p1, then p1 -> p0 (the subject receives authority back), p0 -> p0, p0 -> p1 ...
+func layoutCount(n int) int {
+	switch {
+	case n >= 3:
+		return 3
+	case n == 2:
+		return 2
+	}
+	return 1
+}
+
+func layoutHolder(layout, n, i int) int {
+	switch layout {
+	case 1:
+		if i >= n-1 {
+			return 0
+		}
+		return alignedHolder(n-1, i)
+	case 2:
+		// holders from the root: p0, p1, p0, then cycling p2, p1, p0 ... towards the leaf
+		switch n - i {
+		case 0, 2:
+			return 0
+		case 1:
+			return 1
+		}
+		return (n - i) % 3 // distance 3 is the subject again: it also delegates to itself in mid-chain
+	}
+	return alignedHolder(n, i)
+}
+
+// ---- long chains: one deviation at a position on either side of the usual thresholds ----
+
+type longChainCase struct {
+	Len  int    `json:"len"`
+	Kind string `json:"kind"` // none | link | subject | missing | loader-error | root-not-self | foreign-root | cmd-widen | policy | expired | not-yet-active
+	Pos  int    `json:"pos"`  // link index (0 = leaf) that deviates
+}
+
+func (c *longChainCase) Weight() int { return c.Len }
+
+var longChainKinds = map[string][]string{
+	"C01": {"link", "subject", "missing", "loader-error", "root-not-self", "foreign-root"},
+	"C02": {"cmd-widen"},
+	"C03": {"policy"},
+	"C04": {"expired", "not-yet-active"},
+	"C05": {"none"},
+}
+
+func longChainPositions(n int) []int {
+	set := map[int]bool{}
+	for _, p := range []int{0, 1, 2, 22, 23, 24, 25, 126, 127, 128, 129, 254, 255, 256, 257, 510, 511, 512, 513, 1022, 1023, 1024, 1025, 1026, 2046, 2047, 2048, 2049, 4094, 4095, 4096, 4097, n / 2, n - 3, n - 2, n - 1} {
+		if p >= 0 && p < n {
+			set[p] = true
+		}
+	}
+	var r []int
+	for p := range set {
+		r = append(r, p)
+	}
+	sortInts(r)
+	return r
+}
+
+func sortInts(a []int) {
+	for i := 1; i < len(a); i++ {
+		for j := i; j > 0 && a[j] < a[j-1]; j-- {
+			a[j], a[j-1] = a[j-1], a[j]
+		}
+	}
+}
+
+// longChainSub: rule-conforming chains of several hundred to several thousand links with exactly
+// one deviation (of the kinds owned by the property) at a position on either side of 24, 128, 256,
+// 512, 1024, 2048, 4096 and at both ends; dir "sound": a deviating chain must be denied; the
+// deviation-free chain (kind none, charged to C05) must be allowed.
+func longChainSub(prop string) *engine.Sub {
+	kinds := longChainKinds[prop]
+	type built struct {
+		base map[[3]int]*delegation.Token // (iss, aud, variant)
+	}
+	polBad := policy.MustConstruct(policy.Equal(".x", literal.Int(2)))
+	mk := func(iss, aud, sub int, cmd string, pol policy.Policy, opts ...delegation.Option) *delegation.Token {
+		return mustDlg(iss, aud, sub, cmd, pol, opts...)
+	}
+	return &engine.Sub{
+		Name: "long-chains",
+		Rule: "principal-aligned, rule-conforming chains of 300, 1100 and 2100 (thorough: 4200) links (holders cycling through the three principals, commands /a throughout under a root /, empty policies, open windows) with exactly ONE deviating link - kinds " + fmt.Sprint(kinds) + " - at every position on either side of 24, 128, 256, 512, 1024, 2048, 4096, in the middle and at both ends; ExecutionAllowed and ExecutionAllowedWithArgsHook: a chain with a deviation must be denied, the deviation-free chain must be allowed; non-trivial = all",
+		Bound: func(t string) string {
+			if t == "thorough" {
+				return "chain lengths {300, 1100, 2100, 4200} x ~30 positions x the property's deviation kinds"
+			}
+			return "chain lengths {300, 1100, 2100} x ~25 positions x the property's deviation kinds"
+		},
+		Setup: func(string) error { chainInit(); return nil },
+		Gen: func(tier string, emit func(any) bool) {
+			lens := []int{300, 1100, 2100}
+			if tier == "thorough" {
+				lens = append(lens, 4200)
+			}
+			for _, n := range lens {
+				for _, k := range kinds {
+					if k == "none" {
+						if !emit(&longChainCase{Len: n, Kind: k, Pos: -1}) {
+							return
+						}
+						continue
+					}
+					for _, p := range longChainPositions(n) {
+						if (k == "root-not-self" || k == "foreign-root") && p != n-1 {
+							continue
+						}
+						if k == "cmd-widen" && p >= n-2 {
+							continue // the root may carry any command, and / directly under the root / is no widening
+						}
+						if !emit(&longChainCase{Len: n, Kind: k, Pos: p}) {
+							return
+						}
+					}
+				}
+			}
+		},
+		NewCase: func() any { return &longChainCase{} },
+		Run: func(ctx *engine.Ctx, c any) {
+			cs := c.(*longChainCase)
+			n := cs.Len
+			holder := func(i int) int { return alignedHolder(n, i) }
+			cache := map[[3]int]*delegation.Token{}
+			base := func(iss, aud int, root bool) *delegation.Token {
+				key := [3]int{iss, aud, 0}
+				cmd := "/a"
+				if root {
+					key[2], cmd = 1, "/"
+				}
+				if t, ok := cache[key]; ok {
+					return t
+				}
+				t := mk(iss, aud, 0, cmd, nil)
+				cache[key] = t
+				return t
+			}
+			byCid := make(map[cid.Cid]*delegation.Token, n)
+			prf := make([]cid.Cid, n)
+			var failCid cid.Cid
+			for i := 0; i < n; i++ {
+				prf[i] = synthCid(100000 + i)
+				iss, aud := holder(i+1), holder(i)
+				d := base(iss, aud, i == n-1)
+				if i == cs.Pos {
+					switch cs.Kind {
+					case "link":
+						d = mk((iss+1)%3, aud, 0, "/a", nil) // issued by someone who is not the next link's audience
+					case "subject":
+						d = mk(iss, aud, 1, "/a", nil)
+					case "missing":
+						d = nil
+					case "loader-error":
+						d, failCid = nil, prf[i]
+					case "root-not-self":
+						d = mk(1, aud, 0, "/", nil) // last link not issued by its subject
+					case "foreign-root":
+						d = mk(1, aud, 1, "/", nil) // self-issued root of another subject
+					case "cmd-widen":
+						d = mk(iss, aud, 0, "/", nil) // wider than the /a it received
+					case "policy":
+						d = mk(iss, aud, 0, "/a", polBad)
+					case "expired":
+						d = mk(iss, aud, 0, "/a", nil, delegation.WithExpirationIn(-c04TenYears))
+					case "not-yet-active":
+						d = mk(iss, aud, 0, "/a", nil, delegation.WithNotBeforeIn(c04TenYears))
+					}
+				}
+				if d != nil {
+					byCid[prf[i]] = d
+				}
+			}
+			var ld delegation.Loader = &posLoader{byCid: byCid}
+			if failCid.Defined() {
+				ld = failingLoader{ld, failCid}
+			}
+			inv, err := invocation.New(prin(holder(0)), prin(0), "/a", prf, invocation.WithNonce(fixedNonce), invocation.WithoutInvokedAt(), invocation.WithArgument("x", 1))
+			if err != nil {
+				panic(err)
+			}
+			ctx.States(1)
+			ctx.Nontrivial(1)
+			ctx.Trans(int64(n))
+			e1, e2 := bothVerdicts(inv, ld)
+			ctx.Eval(2)
+			ctx.Outcome(errLabel(e1))
+			for k, e := range []error{e1, e2} {
+				api := [2]string{"ExecutionAllowed", "ExecutionAllowedWithArgsHook"}[k]
+				if cs.Kind == "none" {
+					if e != nil {
+						ctx.Failf(cs, "long-chain/conforming-denied:"+errLabel(e), "%s denies a rule-conforming chain of %d links: %v", api, n, e)
+					}
+				} else if e == nil {
+					ctx.Failf(cs, "long-chain/allowed-despite:"+cs.Kind, "%s allows a chain of %d links whose link #%d deviates (%s)", api, n, cs.Pos, cs.Kind)
+				}
+			}
+		},
+	}
+}
